@@ -768,6 +768,10 @@ def main():
             r = r2 if r2["status"] == "reproduced" else r
     elif any((f.get("scenario") or {}).get("kind") == "vm" for f in fails):
         r = replay_vm(exe, fails)
+    elif any((f.get("scenario") or {}).get("kind") == "sql" for f in fails):
+        from replay_sql import replay_sql, build_sql
+        exe_sql, why = build_sql(repo, cache)
+        r = replay_sql(exe_sql, fails) if exe_sql else {"status": "unavailable", "summary": "native build of the translator failed: " + why[-300:]}
     elif any((f.get("scenario") or {}).get("kind") == "clock" for f in fails):
         r = replay_clock(exe, fails)
     elif any((f.get("scenario") or {}).get("kind") == "grammar" for f in fails):
